@@ -213,6 +213,53 @@ Proof.
   unfold resolve_buf. repeat match goal with E : _ = false |- _ => rewrite E; clear E end. reflexivity.
 Qed.
 
+(* every numeric token begins with a digit or a sign *)
+Lemma strip_sign_other (b : byte) r : b <> 43 -> b <> 45 -> strip_sign (b :: r) = b :: r.
+Proof.
+  intros H1 H2. unfold strip_sign. destruct b as [|p]; [reflexivity|].
+  repeat (destruct p as [p|p|]; try reflexivity); contradiction.
+Qed.
+Lemma numeric_like_first (b : byte) r : numeric_like (b :: r) = true -> numeric_first b = true.
+Proof.
+  intros H. destruct (numeric_first b) eqn:E; [reflexivity|]. exfalso.
+  assert (Hs : strip_sign (b :: r) = b :: r) by (apply strip_sign_other; unfold numeric_first, is_digit in E; lia).
+  assert (Hd : is_digit b = false) by (unfold numeric_first in E; lia).
+  assert (Hsp : span_digits (b :: r) = ([], b :: r)) by (cbn [span_digits]; rewrite Hd; reflexivity).
+  unfold numeric_like, int_rx, float_rx, ratio_rx in H. rewrite Hs, Hsp in H. cbn in H. discriminate H.
+Qed.
+Lemma lower_numeric_first b : numeric_first (lower b) = numeric_first b.
+Proof. unfold numeric_first, is_digit, lower. destruct ((65 <=? b) && (b <=? 90)) eqn:E; lia. Qed.
+(* whether a token is a symbol is decided on its lower-cased spelling *)
+Lemma resolve_token_sym (tok tok' : list byte) : map lower tok = map lower tok' -> reads_as_symbol tok = true ->
+  resolve_token tok' = OSym tok'.
+Proof.
+  unfold reads_as_symbol, resolve_token. cbv zeta. intros <-. set (buf := map lower tok).
+  destruct (starts_with_at buf); [reflexivity|]. unfold resolve_buf, int_obj.
+  destruct (int_rx buf); [discriminate|].
+  destruct (float_rx None buf || float_rx (Some 101) buf); [discriminate|].
+  destruct (float_rx (Some 100) buf); [discriminate|]. destruct (float_rx (Some 115) buf); [discriminate|].
+  destruct (float_rx (Some 102) buf); [discriminate|]. destruct (float_rx (Some 108) buf); [discriminate|].
+  destruct (ratio_rx buf); [|reflexivity]. destruct (split_slash buf) as [ns ds]. cbv zeta.
+  destruct (0 <? int_val 10 ds)%Z; [discriminate|reflexivity].
+Qed.
+(* a name Symbol.needPipes leaves without bars is resolved to a symbol, whatever the print case *)
+Lemma need_pipes_false_resolves c (name : list byte) : need_pipes name = false ->
+  resolve_token (case_name (p_case c) name) = OSym (case_name (p_case c) name).
+Proof.
+  unfold need_pipes. intros H. apply orb_false_iff in H as [_ H]. destruct name as [|b r]; [destruct (p_case c); reflexivity|].
+  destruct (numeric_first b) eqn:Ef.
+  - cbn [andb] in H. apply negb_false_iff in H. apply (resolve_token_sym (b :: r)); [|exact H].
+    symmetry. apply map_lower_case.
+  - apply resolve_symbolic. rewrite map_lower_case. cbn [map].
+    destruct (numeric_like (lower b :: map lower r)) eqn:E; [|reflexivity].
+    apply numeric_like_first in E. rewrite lower_numeric_first in E. congruence.
+Qed.
+Lemma keyword_resolves c (r : list byte) : resolve_token (case_name (p_case c) (58 :: r)) = OSym (case_name (p_case c) (58 :: r)).
+Proof.
+  apply resolve_symbolic. rewrite map_lower_case. cbn [map]. change (lower 58) with 58.
+  destruct (numeric_like (58 :: map lower r)) eqn:E; [|reflexivity]. apply numeric_like_first in E. discriminate E.
+Qed.
+
 Lemma pipe_ok_closed b : pipe_ok_byte b = true /\ b < 128 -> (pipe_ok_byte (lower b) = true /\ lower b < 128) /\ (pipe_ok_byte (upper b) = true /\ upper b < 128).
 Proof.
   intros [H Hb]. unfold pipe_ok_byte in *. unfold lower, upper.
@@ -221,15 +268,16 @@ Qed.
 
 (* the name as the printer writes it without bars *)
 Lemma bare_reads c (s : list byte) : bare_ok s = true ->
+  resolve_token (case_name (p_case c) s) = OSym (case_name (p_case c) s) ->
   exists y, Reads (case_name (p_case c) s) (TLeaf (LTok (case_name (p_case c) s))) /\
             obj_of_tree (TLeaf (LTok (case_name (p_case c) s))) = Some y /\ obj_equal (OSym s) y = true /\
             ty_eqb (type_of (OSym s)) (type_of y) = true /\ is_dot (TLeaf (LTok (case_name (p_case c) s))) = false /\
             case_name (p_case c) s <> [].
 Proof.
-  unfold bare_ok. intros H. apply andb_true_iff in H as [H Hdot]. apply andb_true_iff in H as [H Hnil].
-  apply andb_true_iff in H as [H Ht]. apply andb_true_iff in H as [Hshape Hnum].
+  unfold bare_ok. intros H Hres. apply andb_true_iff in H as [H Hdot]. apply andb_true_iff in H as [H Hnil].
+  apply andb_true_iff in H as [Hshape Ht].
   destruct s as [|b r]; [discriminate Hshape|]. apply andb_true_iff in Hshape as [Hf Hr].
-  apply negb_true_iff in Hnum, Ht, Hnil, Hdot.
+  apply negb_true_iff in Ht, Hnil, Hdot.
   set (w := case_name (p_case c) (b :: r)).
   assert (Htok : exists a rest, w = a :: rest /\ token_first a = true /\ forallb token_byte rest = true).
   { assert (HrL : forallb token_byte (map lower r) = true).
@@ -243,55 +291,60 @@ Proof.
   { unfold tok_tree, w. rewrite is_t_case by exact Ht. rewrite is_nil_tok_case, Hnil. reflexivity. }
   exists (OSym w). split; [rewrite <- Htt, Ew; apply Reads_token; assumption|].
   repeat split.
-  - cbn [obj_of_tree]. rewrite resolve_symbolic; [reflexivity|]. unfold w. rewrite map_lower_case. exact Hnum.
+  - cbn [obj_of_tree]. unfold w. rewrite Hres. reflexivity.
   - cbn [obj_equal]. unfold w. rewrite map_lower_case. apply bytes_eqb_refl.
   - destruct (is_dot (TLeaf (LTok w))) eqn:Ed; [|reflexivity]. apply is_dot_true in Ed. apply case_46 in Ed.
     rewrite Ed in Hdot. discriminate Hdot.
   - rewrite Ew. discriminate.
 Qed.
 
-Lemma keyword_no_pipe (s : list byte) : existsb need_pipe s = false -> forall c, symbol_text c s = match s with [] => [124; 124] | _ => case_name (p_case c) s end.
+(* the two matches on the first byte, as tests *)
+Lemma symbol_text_cons c (b : byte) r : symbol_text c (b :: r) =
+  if b =? 58 then case_name (p_case c) (b :: r)
+  else if need_pipes (b :: r) then [124] ++ case_name (p_case c) (b :: r) ++ [124] else case_name (p_case c) (b :: r).
 Proof.
-  intros H c. unfold symbol_text. destruct s as [|b r]; [reflexivity|]. rewrite H.
-  destruct b as [|p]; [reflexivity|]. repeat (destruct p as [p|p|]; try reflexivity).
+  destruct (N.eqb_spec b 58) as [->|Hb]; [reflexivity|]. unfold symbol_text.
+  destruct b as [|p]; [reflexivity|]. repeat (destruct p as [p|p|]; try reflexivity). contradiction.
+Qed.
+Lemma sym_ok_cons c inl (b : byte) r : sym_ok c inl (b :: r) =
+  forallb (fun b => b <? 128) (b :: r) &&
+  (if b =? 58 then negb (existsb need_pipe (b :: r)) && bare_ok (b :: r)
+   else if need_pipes (b :: r) then forallb pipe_ok_byte (b :: r) && negb inl else bare_ok (b :: r)).
+Proof.
+  destruct (N.eqb_spec b 58) as [->|Hb]; [reflexivity|]. unfold sym_ok. f_equal.
+  destruct b as [|p]; [reflexivity|]. repeat (destruct p as [p|p|]; try reflexivity). contradiction.
 Qed.
 
 Lemma RT_sym c inl (s : list byte) : sym_ok c inl s = true ->
   RT (OSym s) (symbol_text c s) /\ (inl = true -> symbol_text c s = case_name (p_case c) s /\ case_name (p_case c) s <> []).
 Proof.
-  unfold sym_ok. intros H. apply andb_true_iff in H as [Hascii H].
   destruct s as [|b r].
   - (* the empty name: || *)
+    unfold sym_ok. intros H. apply andb_true_iff in H as [_ H].
     apply negb_true_iff in H. subst inl. split; [|discriminate].
     exists (TLeaf (LPipe [])), (OSym []). split; [exact (Reads_pipe [] (fun b (H : In b []) => match H with end))|].
     repeat split; try reflexivity; discriminate.
-  - assert (Hbare : bare_ok (b :: r) = true -> existsb need_pipe (b :: r) = false ->
-                    RT (OSym (b :: r)) (symbol_text c (b :: r)) /\
-                    (inl = true -> symbol_text c (b :: r) = case_name (p_case c) (b :: r) /\ case_name (p_case c) (b :: r) <> [])).
-    { intros Hb Hnp. rewrite (keyword_no_pipe _ Hnp c).
-      destruct (bare_reads c (b :: r) Hb) as (y & HR & Ho & He & Ht & Hd & Hne).
+  - rewrite sym_ok_cons, symbol_text_cons. intros H. apply andb_true_iff in H as [Hascii H].
+    set (w := case_name (p_case c) (b :: r)).
+    assert (Hbare : bare_ok (b :: r) = true -> resolve_token w = OSym w ->
+                    RT (OSym (b :: r)) w /\ (inl = true -> w = w /\ w <> [])).
+    { intros Hb Hres. destruct (bare_reads c (b :: r) Hb Hres) as (y & HR & Ho & He & Ht & Hd & Hne).
       split; [|intros _; split; [reflexivity|exact Hne]].
-      exists (TLeaf (LTok (case_name (p_case c) (b :: r)))), y. repeat split; try assumption. discriminate. }
-    destruct (N.eq_dec b 58) as [->|Hb58].
-    + (* keyword *) apply andb_true_iff in H as [Hnp Hb]. apply negb_true_iff in Hnp. apply Hbare; assumption.
-    + assert (Hm : match b :: r with [] => negb inl | 58 :: _ => negb (existsb need_pipe (b :: r)) && bare_ok (b :: r)
-                   | _ => if existsb need_pipe (b :: r) then forallb pipe_ok_byte (b :: r) && negb inl else bare_ok (b :: r) end =
-                   (if existsb need_pipe (b :: r) then forallb pipe_ok_byte (b :: r) && negb inl else bare_ok (b :: r))).
-      { destruct b as [|p]; [reflexivity|]. repeat (destruct p as [p|p|]; try reflexivity). contradiction. }
-      rewrite Hm in H. clear Hm. destruct (existsb need_pipe (b :: r)) eqn:Enp.
+      exists (TLeaf (LTok w)), y. repeat split; try assumption. discriminate. }
+    destruct (b =? 58) eqn:E58.
+    + (* keyword *) apply N.eqb_eq in E58. subst b. apply andb_true_iff in H as [_ Hb]. apply Hbare; [exact Hb|apply keyword_resolves].
+    + destruct (need_pipes (b :: r)) eqn:Enp.
       * (* |name| *)
         apply andb_true_iff in H as [Hpipe Hinl]. apply negb_true_iff in Hinl. subst inl. split; [|discriminate].
-        assert (Etext : symbol_text c (b :: r) = [124] ++ case_name (p_case c) (b :: r) ++ [124]).
-        { unfold symbol_text. rewrite Enp. destruct b as [|p]; [reflexivity|]. repeat (destruct p as [p|p|]; try reflexivity). contradiction. }
-        rewrite Etext. exists (TLeaf (LPipe (case_name (p_case c) (b :: r)))), (OSym (case_name (p_case c) (b :: r))).
+        exists (TLeaf (LPipe w)), (OSym w).
         split.
         { apply Reads_pipe. intros x Hx.
-          assert (HF : Forall (fun b => pipe_ok_byte b = true /\ b < 128) (case_name (p_case c) (b :: r))).
+          assert (HF : Forall (fun b => pipe_ok_byte b = true /\ b < 128) w).
           { apply case_name_forall; [apply pipe_ok_closed|]. apply Forall_forall. intros y Hy.
             rewrite forallb_forall in Hpipe, Hascii. split; [apply Hpipe, Hy|]. specialize (Hascii y Hy). lia. }
           destruct (in_cases x _ _ HF Hx) as [H1 H2]. apply pipe_ok_sym; assumption. }
-        repeat split; try reflexivity; try discriminate. cbn [obj_equal]. rewrite map_lower_case. apply bytes_eqb_refl.
-      * apply Hbare; [exact H|reflexivity].
+        repeat split; try reflexivity; try discriminate. cbn [obj_equal]. unfold w. rewrite map_lower_case. apply bytes_eqb_refl.
+      * apply Hbare; [exact H|apply need_pipes_false_resolves; exact Enp].
 Qed.
 
 (* ------------------------------------------------------------------------------------------ *)
